@@ -102,7 +102,8 @@ def _bipartite_view(B):
     return (B.left_order(), B.right_order()), list(B.__dict__.get("_py2lean_log", []))
 
 
-BUILDER_VIEW = {"DirectedGraph": _digraph_view, "BipartiteGraph": _bipartite_view}
+BUILDER_VIEW = {"DirectedGraph": _digraph_view, "BipartiteGraph": _bipartite_view,
+                "CNFLinear": lambda F: ((), [list(c) for c in F.clauses()])}
 BUILDER_HOME = {"DirectedGraph": ("cnfgen.graphs", "add_edge"), "BipartiteGraph": ("cnfgen.graphs", "add_edge")}
 
 
@@ -441,7 +442,18 @@ def word_lit(rng, ctx):
     return v if rng.random() < 0.6 else -v
 
 
+def lin_lits(rng, ctx):
+    n = rng.choice([0, 1, 2, 3, 4, 5, 6])
+    ls = [rng.choice([-1, 1]) * rng.randint(1, 8) for _ in range(n)]
+    if rng.random() < 0.08 and ls:
+        ls[rng.randrange(len(ls))] = 0
+    return ls
+
+
 HINTS = {
+    ("CNFLinear", "lits"): lin_lits,
+    ("CNFLinear", "op"): lambda rng, ctx: rng.choice(["<=", ">=", "<", ">", "==", "!="] * 3 + ["=", "=>"]),
+    ("CNFLinear", "constant"): lambda rng, ctx: rng.randint(-2, 8),
     ("bipartite_shift", "N"): lambda rng, ctx: rng.choice([0, 1, 2, 3, 5, -1]),
     ("bipartite_shift", "M"): lambda rng, ctx: rng.choice([0, 1, 2, 3, 4, 7, -2]),
     ("bipartite_shift", "pattern"): lambda rng, ctx: [rng.randint(-9, 12) for _ in range(rng.choice([0, 1, 2, 3, 4]))],
@@ -707,7 +719,15 @@ def _adapt_graph(rng):
     return build, _bip_fields(obj.BG, nv), ctx
 
 
-FIELD_ADAPTERS = {"DiGraphEdgesVariables": _adapt_digraph, "GraphEdgesVariables": _adapt_graph}
+def _adapt_cnflinear(rng):
+    def build():
+        from cnfgen.formula.linear import CNFLinear
+        return CNFLinear()
+    return build, [], {}
+
+
+FIELD_ADAPTERS = {"DiGraphEdgesVariables": _adapt_digraph, "GraphEdgesVariables": _adapt_graph,
+                  "CNFLinear": _adapt_cnflinear}
 
 OMIT = object()
 
@@ -726,7 +746,7 @@ def make_call(rng, fn, manifest):
     """returns (request builder → str, impl → canonical answer) for one random argument tuple"""
     cls = fn["cls"]
     mod = real_module(fn["source"])
-    if fn["ret"].get("k") == "builder":
+    if fn["ret"].get("k") == "builder" and fn["ret"]["cls"] in BUILDER_HOME:
         # only in processes that test such a function: remember the commands its result received
         home = BUILDER_HOME[fn["ret"]["cls"]]
         _record_commands(home[0], fn["ret"]["cls"], home[1])
@@ -800,7 +820,10 @@ def make_call(rng, fn, manifest):
             return "OK " + canon_obj(obj, cls, manifest)
         obj = adapter[0]() if adapter is not None else C(*strip_omitted(init_real))
         m = getattr(obj, fn["py"])
-        r = m(*real[0]) if fn["vararg"] else m(*strip_omitted(real))
+        import copy as _copy
+        r = m(*real[0]) if fn["vararg"] else m(*_copy.deepcopy(strip_omitted(real)))
+        if fn.get("effect_self"):
+            r = obj            # a procedure: the observation is what it did to the object
         if fn["ret"]["k"] == "obj":
             return "OK " + canon_obj(r, fn["ret"]["cls"], manifest)
         return "OK " + canon(r, fn["ret"])
@@ -817,6 +840,8 @@ def make_call(rng, fn, manifest):
         for ty, v in enc:
             toks += encode(v, ty)
         for o in obs:
+            if o[1]["k"] == "fun":
+                continue              # instantiated by the driver itself (specs: DRIVER_CALLS)
             toks.append(OUTCOME[outcome_of(o)])
         return "gen " + " ".join(str(t) for t in toks)
     info = {"fn": fn["lean"], "init": repr(init_real), "args": repr(real)}
